@@ -99,7 +99,7 @@ func (w *World) exec(i int, s *Step) {
 	e := w.Env
 	p := w.peer(s.Peer)
 	switch s.Kind {
-	case "wait", "":
+	case "wait", "", "checkpoint":
 	case "connect":
 		if p != nil {
 			p.Connect()
